@@ -686,11 +686,34 @@ func (l *PartitionLog) computeSegmentRange(seg segmentRange, entries []*IndexEnt
 	end := endLimit - 1
 	if maxBytes > 0 {
 		maxEnd := start + int64(maxBytes) - 1
+		// The index is sparse: entry is at or before offset, so the batch holding
+		// offset starts somewhere between entry.Position and the position of the
+		// first index entry beyond offset. Unless entry sits exactly at offset,
+		// cutting the range short of that position can return only batches that
+		// end before offset; the consumer skips them and re-sends the same fetch
+		// forever. Like Kafka, exceed the byte limit rather than return nothing
+		// the consumer can use: never cut inside the index block holding offset.
+		if entry.Offset < offset {
+			if blockEnd := indexBlockEnd(entries, offset, endLimit) - 1; maxEnd < blockEnd {
+				maxEnd = blockEnd
+			}
+		}
 		if maxEnd < end {
 			end = maxEnd
 		}
 	}
 	return start, end
+}
+
+// indexBlockEnd returns the position of the first index entry beyond offset, or
+// limit when offset lies in the last index block of the segment.
+func indexBlockEnd(entries []*IndexEntry, offset int64, limit int64) int64 {
+	for _, e := range entries {
+		if e.Offset > offset {
+			return int64(e.Position)
+		}
+	}
+	return limit
 }
 
 func findIndexEntry(entries []*IndexEntry, offset int64) *IndexEntry {
